@@ -3384,7 +3384,7 @@ func (d *cborDecDriverBytes) ContainerType() (vt valueType) {
 	if d.h.SkipUnexpectedTags {
 		d.skipTags()
 	}
-	if d.bd == cborBdNil {
+	if d.bd == cborBdNil || d.bd == cborBdUndefined {
 		d.bdRead = false
 		return valueTypeNil
 	}
@@ -7407,7 +7407,7 @@ func (d *cborDecDriverIO) ContainerType() (vt valueType) {
 	if d.h.SkipUnexpectedTags {
 		d.skipTags()
 	}
-	if d.bd == cborBdNil {
+	if d.bd == cborBdNil || d.bd == cborBdUndefined {
 		d.bdRead = false
 		return valueTypeNil
 	}
